@@ -1085,7 +1085,11 @@ func (h *hist) refusedAdmin() {
 	case 1:
 		h.admin("alter "+t.name+" drop (zz)", false)
 	case 2:
-		h.admin("alter "+t.name+" drop key(k)", false)
+		if t.nkeys() == 1 {
+			h.admin("alter "+t.name+" drop key(k)", false) // can't drop all keys
+		} else {
+			h.admin("alter "+t.name+" drop index(zz)", false)
+		}
 	case 3:
 		h.admin("alter "+t.name+" create (k)", false)
 	}
